@@ -294,14 +294,20 @@ def body_struct(s, fam, absent, ctxs):
     return ok >= 1
 
 
-def cond_pre(sk, absent):
+def cond_pre(sk, absent, max_content=None):
     pre = []
     j = 0
     ws_idx = []
+    ncontent = 0
     for i, ch in enumerate(sk):
         if absent is not None and i in absent:
             continue
         if ch == '§':
+            ncontent += 1
+            if max_content is not None and ncontent > max_content:
+                pre.append('s[%d] == chr(120)' % j)     # quick tier: further content holes pinned to the letter x
+                j += 1
+                continue
             pre.append('(48 <= ord(s[%d]) < 58 or 65 <= ord(s[%d]) < 91 or 97 <= ord(s[%d]) < 123)' % (j, j, j))
         elif ch == '¶':
             pre.append('s[%d].isspace()' % j)
@@ -351,7 +357,8 @@ def conditions(tier):
         for tag, _, absent in vs:
             if (name == 'par_sp' or name in REQUIRE_WS) and absent:
                 continue
-            pre = cond_pre(sk, absent)
+            nws = sum(1 for i, ch in enumerate(sk) if ch == '¶' and not (absent and i in absent))
+            pre = cond_pre(sk, absent, (1 if nws >= 2 else 2) if quick else None)
             if name == 'par_sp':
                 pre = [p for p in pre if not p.startswith('sum(')] + ['s[2] != chr(10)']
             conds.append(Cond('fam_%s%s' % (name, ('_' + tag) if tag else ''), 's: str', pre,
@@ -376,7 +383,8 @@ META = dict(
     bounds=dict(quick='66 document families (one per argument signature and construct: macro calls with star / optional / mandatory '
                       'arguments as groups and single tokens, environments with arguments, the four math delimiters singly and adjacent, '
                       'comments incl. between macro and argument, specials with longest match, paragraph breaks, verbatim, depth-2 '
-                      'nestings, unknown macro/environment with fallback); content holes = any ASCII letter or digit, whitespace holes = any '
+                      'nestings, unknown macro/environment with fallback); content holes = any ASCII letter or digit (the first two per document free, the first one when two or more whitespace '
+                      'holes are present; the others pinned to x), whitespace holes = any '
                       'str.isspace() character (all present / all absent), continuation hole = any non-active character; under the '
                       'compact context (every fourth family under the variant with unknown-macro fallback)',
                 thorough='every family under both contexts; additionally each whitespace hole present alone'),
